@@ -5,6 +5,7 @@ import (
 	"context"
 	"errors"
 	"fmt"
+	"math"
 	"sort"
 	"time"
 
@@ -251,6 +252,19 @@ func (e *Env) consumeSweep(l klevdb.Log, tag, what string) {
 	if holes {
 		e.flag("sweep-holes")
 	}
+	// far beyond NextOffset: "an offset beyond NextOffset fails with ErrInvalidOffset", whatever its size
+	for _, o := range farOffsets(m.Next, e.Step) {
+		no, msgs, err := l.Consume(o, e.mc(o%1000))
+		e.St.Inc("consume_far_calls")
+		if !errors.Is(err, klevdb.ErrInvalidOffset) || len(msgs) != 0 {
+			e.failf(tag, "%s: Consume(%d) far beyond NextOffset=%d returned %d,%v,%v want ErrInvalidOffset", what, o, m.Next, no, msgOffsets(msgs), err)
+		}
+	}
+}
+
+// farOffsets are unassigned offsets well away from NextOffset, up to the largest int64.
+func farOffsets(next int64, step int) []int64 {
+	return []int64{next + 3 + int64(step%61), next + 1<<20, 1<<31 - 1 + int64(step%3), 1<<32 + next, 1 << 53, math.MaxInt64 - 1 - int64(step%2), math.MaxInt64}
 }
 
 func offsFrom(m *Model, i, n int) []int64 {
@@ -297,6 +311,13 @@ func (e *Env) getSweep(l klevdb.Log, tag, what string) {
 			}
 		}
 	}
+	for _, o := range farOffsets(m.Next, e.Step) {
+		g, err := l.Get(o)
+		e.St.Inc("get_far_calls")
+		if !errors.Is(err, klevdb.ErrInvalidOffset) {
+			e.failf(tag, "%s: Get(%d) of an unassigned offset (NextOffset %d) returned %+v,%v, want ErrInvalidOffset", what, o, m.Next, FromMessage(g), err)
+		}
+	}
 	for _, rel := range []int64{klevdb.OffsetOldest, klevdb.OffsetNewest} {
 		g, err := l.Get(rel)
 		if len(m.Live) == 0 {
@@ -318,6 +339,9 @@ func (e *Env) getSweep(l klevdb.Log, tag, what string) {
 func (e *Env) keyUniverse() [][]byte {
 	ks := append([][]byte{}, KeyUniverse...)
 	ks = append(ks, []byte("zz-absent"))
+	if !e.Cfg.SmallKeys {
+		ks = append(ks, longKeys...)
+	}
 	ks = append(ks, CollidingAbsent...)
 	return ks
 }
@@ -385,6 +409,18 @@ func (e *Env) keySweep(l klevdb.Log, tag, what string) {
 		for i := range all {
 			if !all[i].Eq(gotk[i]) {
 				e.failf(tag, "%s: ConsumeByKey(%s) message %d is %+v want %+v", what, hexs(k), i, FromMessage(gotk[i]), all[i])
+			}
+		}
+		// a cursor beyond NextOffset
+		if ki%4 == e.Step%4 {
+			for _, c := range append(farOffsets(m.Next, e.Step), m.Next+1, m.Next+2) {
+				no, msgs, err := l.ConsumeByKey(k, c, 2)
+				e.St.Inc("consumebykey_far_calls")
+				// C09 does not say how such a cursor is answered (the code answers "caught up": NextOffset, nothing);
+				// what it may never do is return a message or a next offset other than NextOffset
+				if len(msgs) != 0 || !(errors.Is(err, klevdb.ErrInvalidOffset) || (err == nil && no == m.Next)) {
+					e.failf(tag, "%s: ConsumeByKey(%s,%d) beyond NextOffset=%d returned %d,%v,%v want nothing and NextOffset (or ErrInvalidOffset)", what, hexs(k), c, m.Next, no, msgOffsets(msgs), err)
+				}
 			}
 		}
 		// from every cursor offset: a prefix of the remaining matches
@@ -463,6 +499,10 @@ func (e *Env) timeCandidates() []int64 {
 		}
 	} else {
 		add(5)
+	}
+	// far away on both sides (the zero time.Time, and values near the ends of the int64 microsecond range)
+	for _, t := range []int64{time.Time{}.UnixMicro(), -(1 << 60), -1 << 31, 1 << 31, 1 << 60, e.M.MaxT + 1<<40} {
+		set[t] = struct{}{}
 	}
 	out := make([]int64, 0, len(set))
 	for t := range set {
